@@ -337,6 +337,120 @@ fn noassert<V: Full>(prop: &mut Property) {
     );
 }
 
+// ------------------------------------------------------------------ typed footers: equivalent re-encodings are still "changed"
+
+#[derive(serde::Serialize, serde::Deserialize, Clone, PartialEq, Debug)]
+struct KidFooter {
+    kid: String,
+    #[serde(default, skip_serializing_if = "Option::is_none")]
+    note: Option<String>,
+}
+
+fn typed_footer<V: Full>(prop: &mut Property) {
+    use paseto_json::Json;
+    let name = V::NAME;
+    // footer bytes that decode to the same typed value (or a superset of it) but are not the sealed bytes
+    let variants: Vec<&'static str> = vec![
+        r#"{"kid": "key-1"}"#,
+        r#" {"kid":"key-1"}"#,
+        "{\"kid\":\"key-1\"}\n",
+        r#"{"kid":"key-1","admin":true}"#,
+        r#"{"kid":"key-1","note":null}"#,
+        r#"{"kid":"key\u002d1"}"#,
+        r#"{"kid":"key-1","kid":"key-1"}"#,
+    ];
+    let n = variants.len() as u64 * 2;
+    prop.subs.push(
+        Sub::new(
+            format!("{name}/typed-footer"),
+            n,
+            "{local, public} x 7 re-encodings of a JSON footer that deserialise to the same typed value (whitespace, added member, explicit null, escaped character, duplicate member): the footer bytes changed, so unsealing must fail, with a typed (struct) footer and with Json<Value>",
+            move |idx, describe| {
+                let local = idx % 2 == 0;
+                let var = variants[(idx / 2) as usize];
+                let mut o = Outcome::new();
+                if describe {
+                    o.sample = Some(json!({"backend": name, "local": local, "footer_variant": var}));
+                }
+                let ks = keys::keyset::<V>(false, 0);
+                let lk = keys::local::<V>(&ks.locals[2].bytes);
+                let sk = keys::secret::<V>(&ks.secrets[0].bytes);
+                let pk = sk.public_key();
+                let footer = KidFooter { kid: "key-1".into(), note: None };
+                let nv = NoValidation::<Raw>::dangerous_no_validation();
+                let sealed = subject(|| {
+                    if local {
+                        ops::seal_local_with::<V, _, _>(&lk, Raw(b"typed footer".to_vec()), Json(footer.clone()), b"", &Nonce::Lib).map(|t| t.to_string())
+                    } else {
+                        ops::seal_public_with::<V, _, _>(&sk, Raw(b"typed footer".to_vec()), Json(footer.clone()), b"", &Nonce::Lib).map(|t| t.to_string())
+                    }
+                });
+                let tok = match sealed {
+                    Ok(Ok(t)) => t,
+                    other => {
+                        o.violate_env(format!("{name}/typed-footer/seal"), format!("{:?}", other.map(|r| r.map_err(|e| err_kind(&e)))), json!({}));
+                        return o;
+                    }
+                };
+                let (hdr, body, ft) = split_token(&tok).unwrap();
+                if ft.as_deref() != Some(br#"{"kid":"key-1"}"#.as_slice()) {
+                    o.class("footer-wire-form-differs-from-expected");
+                }
+                // witness: the untouched token is accepted with the typed footer
+                let good = subject(|| -> Result<bool, paseto_core::PasetoError> {
+                    if local {
+                        let t: SealedToken<V, Local, Raw, Json<KidFooter>> = tok.parse()?;
+                        Ok(t.decrypt(&lk, &nv)?.footer.0 == footer)
+                    } else {
+                        let t: SealedToken<V, Public, Raw, Json<KidFooter>> = tok.parse()?;
+                        Ok(t.verify(&pk, &nv)?.footer.0 == footer)
+                    }
+                });
+                if matches!(good, Ok(Ok(true))) {
+                    o.class("base-accepted");
+                } else {
+                    o.violate_env(format!("{name}/typed-footer/base"), "untouched typed-footer token not accepted", json!({"token": tok}));
+                    return o;
+                }
+                let mutated = ops::join_token(&hdr, &body, Some(var.as_bytes()));
+                o.evals = 0;
+                o.nontrivial = 0;
+                for typed in [true, false] {
+                    o.evals += 1;
+                    o.nontrivial += 1;
+                    let r = subject(|| -> Result<(), paseto_core::PasetoError> {
+                        match (local, typed) {
+                            (true, true) => {
+                                let t: SealedToken<V, Local, Raw, Json<KidFooter>> = mutated.parse()?;
+                                t.decrypt(&lk, &nv).map(|_| ())
+                            }
+                            (true, false) => {
+                                let t: SealedToken<V, Local, Raw, Json<serde_json::Value>> = mutated.parse()?;
+                                t.decrypt(&lk, &nv).map(|_| ())
+                            }
+                            (false, true) => {
+                                let t: SealedToken<V, Public, Raw, Json<KidFooter>> = mutated.parse()?;
+                                t.verify(&pk, &nv).map(|_| ())
+                            }
+                            (false, false) => {
+                                let t: SealedToken<V, Public, Raw, Json<serde_json::Value>> = mutated.parse()?;
+                                t.verify(&pk, &nv).map(|_| ())
+                            }
+                        }
+                    });
+                    match r {
+                        Ok(Err(e)) => o.class(err_kind(&e)),
+                        Ok(Ok(())) => o.violate(format!("{name}/typed-footer/accepted"), format!("token accepted although its footer bytes were changed to {var:?} ({} footer type)", if typed { "struct" } else { "Json<Value>" }), json!({"base": tok, "token": mutated})),
+                        Err(p) => o.violate(format!("{name}/typed-footer/panic"), p, json!({"token": mutated})),
+                    }
+                }
+                o
+            },
+        )
+        .witness(&["base-accepted", "CryptoError"]),
+    );
+}
+
 pub fn build(ctx: &Ctx) -> Property {
     let mut p = Property::new("C02", "fault_enumeration");
     add::<backends::V1>(&mut p, ctx);
@@ -346,6 +460,12 @@ pub fn build(ctx: &Ctx) -> Property {
     add::<backends::V4>(&mut p, ctx);
     add::<backends::V4S>(&mut p, ctx);
     p.subs.push(relabel_sub(ctx));
+    typed_footer::<backends::V1>(&mut p);
+    typed_footer::<backends::V2>(&mut p);
+    typed_footer::<backends::V3>(&mut p);
+    typed_footer::<backends::V3L>(&mut p);
+    typed_footer::<backends::V4>(&mut p);
+    typed_footer::<backends::V4S>(&mut p);
     noassert::<backends::V1>(&mut p);
     noassert::<backends::V2>(&mut p);
     p.assume("ECDSA (r, n-s) malleability is not a single-bit change and is outside the fault set, as is any multi-bit forgery: the fault classes are exactly those the statement lists");
